@@ -314,6 +314,8 @@ class Worker:
                 o = res.ops.get(i)
                 if o is None:
                     o = OpResult('?', {}); res.ops[i] = o
+                if t[2].startswith('filex:'):
+                    t[2] = 'file:' + unhx(t[2][6:]).decode('latin-1')
                 if t[2].startswith('seq') and len(t) >= 7:
                     o.out[t[2]] = (unhx(t[3]), int(t[4]), unhx(t[5]), t[6])
                 else:
